@@ -273,3 +273,17 @@ Example C18_ex_write_two_files :
              (ex_fs2 [63; 10]%N [120; 32; 121; 10]%N) [] 100 in
   r_status r = Exit 1 /\ files (r_fs r) ex_t2 = Some {| f_data := [120; 32; 121; 10]%N; f_mode := 384 |}.
 Proof. vm_compute. split; reflexivity. Qed.
+
+(* the formatter is a function of the BYTES: with a formatter that rejects byte 13 (CR, as evy's
+   lexer does), a file that is formatted except for CRLF line endings is NOT reported as formatted
+   and is left untouched by -w *)
+Definition ex_fmt_cr (b : bytes) : option bytes :=
+  if existsb (N.eqb 13) b then None else Some (filter (fun c => negb (N.eqb c 32)) b).
+Example C18_ex_crlf :
+  let crlf := [120; 13; 10]%N in
+  r_status (run ex_fmt_cr evy_parts evy_join Current CmdCheck ex_target ex_tmp (ex_fs crlf) [] 100) = Exit 1 /\
+  (let r := run ex_fmt_cr evy_parts evy_join Current CmdWrite ex_target ex_tmp (ex_fs crlf) [] 100 in
+   r_status r = Exit 1 /\ files (r_fs r) ex_target = Some {| f_data := crlf; f_mode := 420 |} /\
+   List.length (r_trace r) = 5%nat) /\
+  fst (fmt_stdin ex_fmt_cr CmdCheck crlf) = Exit 1.
+Proof. vm_compute. repeat split; reflexivity. Qed.
